@@ -70,7 +70,7 @@ def main():
             try:
                 for c in checks:
                     t0 = time.time()
-                    rc, out = run("cd %s && VERIF_REPO=%s ./vcheck %s quick" % (VERIF, scratch, c))
+                    rc, out = run("cd %s && VERIF_REPO=%s VERIF_NOEVIDENCE=1 ./vcheck %s quick" % (VERIF, scratch, c))
                     viol = re.findall(r"VIOLATION property=\S+ replay=\S+\n\s+(.{0,160})", out)
                     meta["checks"][c] = {"exit": rc, "violations": len(viol), "first": viol[0] if viol else "",
                                          "wall_s": round(time.time() - t0, 1)}
